@@ -1,8 +1,9 @@
 ---------------------------- MODULE EgoCrash_Gen ----------------------------
 (* Generator for C07: every single token-level edit (EgoCrashDefs!Apply) of every *)
 (* base program of the corpus, enumerated by index <<b, i, k, v>>; a tier     *)
-(* takes the slice Sel (a residue class of a linear form of the index, moved  *)
-(* by Seed: the slices of Seed = 0..Mod1-1 partition the whole space), and a  *)
+(* takes the slice Sel1 (a residue class of a linear form of the index, moved *)
+(* by Seed: the slices of Seed = 0..Mod-1 partition the whole space; the      *)
+(* thorough tier takes ModS = 1, every edit of the one-variant kinds), and a  *)
 (* sample of second edits applied to the result of a first one.               *)
 (* Init enumerates the small index records; Next builds the mutated token     *)
 (* sequence; the invariant Emit prints each finished case as JSON:            *)
@@ -10,9 +11,10 @@
 (*    at |-> <<positions>>, toks |-> <<spellings>>]                           *)
 EXTENDS EgoCrashDefs, Json
 
-CONSTANTS Mod1,     \* 1 of Mod1 single edits is taken
-          Mod2,     \* 1 of Mod2 second edits is taken, after ...
-          Ext2,     \* ... 1 of Ext2 first edits
+CONSTANTS ModS,     \* 1 of ModS edits of the kinds with one variant per position (del dup swap trunc) and of lit is taken
+          ModV,     \* 1 of ModV edits of the kinds with many variants per position (rep ins) is taken
+          Ext2,     \* 1 of Ext2 first edits gets second edits: at 1 of ModP positions, 1 of ModQ variants
+          ModP, ModQ,
           Seed
 
 Corpus == ndJsonDeserialize("corpus.ndjson")     \* <<[name, toks: <<[t, lx]>>]>>
@@ -24,21 +26,25 @@ VARIABLES st,      \* "idx" (index chosen) | "one" | "two"
 gvars == <<st, b, i, k, v, toks, cls, at>>
 
 KindNo(kk) == CHOOSE n \in 1..Len(Kinds) : Kinds[n] = kk
-H(bb, ii, kk, vv) == bb * 37 + ii * 11 + KindNo(kk) * 5 + vv * 7
+H(bb, ii, kk, vv) == bb * 37 + ii * 11 + KindNo(kk) * 5 + vv
 
-Sel1(bb, ii, kk, vv) == (H(bb, ii, kk, vv) + Seed) % Mod1 = 0
-SelX(bb, ii, kk, vv) == ((H(bb, ii, kk, vv) + Seed) \div Mod1) % Ext2 = 0
-Sel2(bb, ii, kk, vv, jj, k2, v2) == (H(bb, ii, kk, vv) * 3 + jj * 13 + KindNo(k2) * 5 + v2 * 7 + Seed) % Mod2 = 0
+ModK(kk) == IF kk \in {"rep", "ins"} THEN ModV ELSE ModS
+Sel1(bb, ii, kk, vv) == (H(bb, ii, kk, vv) + Seed) % ModK(kk) = 0
+(* the variants Sel1 takes at <<bb, ii, kk>>, computed instead of filtered (v has coefficient 1 in H) *)
+VSel(bb, ii, kk, nv) == LET m == ModK(kk)
+                            r == (H(bb, ii, kk, 0) + Seed) % m
+                        IN  {(m - r) + n * m : n \in 0..(nv \div m)} \cap (1..nv)
+SelX(bb, ii, kk, vv) == ((H(bb, ii, kk, vv) + Seed) \div ModK(kk)) % Ext2 = 0
+SelP(h, jj)          == (h + jj * 13 + Seed) % ModP = 0
+SelQ(h, jj, k2, v2)  == (h * 3 + jj + KindNo(k2) * 5 + v2) % ModQ = 0
 
 KindSet == {Kinds[n] : n \in 1..Len(Kinds)}
-MaxVar == Len(Pool) + Len(Markers)
 
 Init == /\ st = "idx"
         /\ b \in 1..Len(Corpus)
         /\ i \in 1..Len(Corpus[b].toks)
         /\ k \in KindSet
-        /\ v \in 1..MaxVar
-        /\ v <= NVar(Corpus[b].toks, i, k)
+        /\ v \in VSel(b, i, k, NVar(Corpus[b].toks, i, k))
         /\ Sel1(b, i, k, v)
         /\ Applicable(Corpus[b].toks, i, k, v)
         /\ toks = <<>> /\ cls = <<>> /\ at = <<>>
@@ -51,9 +57,10 @@ First == /\ st = "idx"
          /\ UNCHANGED <<b, i, k, v>>
 
 Second == /\ st = "one" /\ SelX(b, i, k, v)
-          /\ \E jj \in 1..Len(toks), k2 \in KindSet \ {"trunc"}, v2 \in 1..MaxVar :
-                /\ v2 <= NVar(toks, jj, k2)
-                /\ Sel2(b, i, k, v, jj, k2, v2)
+          /\ \E jj \in 1..Len(toks) :
+             /\ SelP(H(b, i, k, v), jj)
+             /\ \E k2 \in KindSet \ {"trunc"} : \E v2 \in 1..NVar(toks, jj, k2) :
+                /\ SelQ(H(b, i, k, v), jj, k2, v2)
                 /\ Applicable(toks, jj, k2, v2)
                 /\ toks' = Apply(toks, jj, k2, v2)
                 /\ cls' = Append(cls, EditClass(toks, jj, k2, v2))
